@@ -83,10 +83,10 @@ _gram = ("RefGrammar.tla states the supported OpenQASM 3 subset as abstract synt
     "table requires (or redundant ones); GrammarCases.tla derives finite case families that TLC evaluates and prints; the harness renders every case under 4 layouts and "
     "drives the real front end. ")
 CHECKS["C04"] = dict(level="model_checking", design="5/C04, 4.6", text=_gram + "C04 verdict: both parse entry points report no diagnostic for every rendering (3.7e3 cases x 4 layouts; thorough 2.4e4 cases).",
-    note="operand pools are small; expression depth <= 3; families enumerated exhaustively", technique="TLA+ reference grammar as generator (TLC), behaviours replayed into the real parser", engine="tlc+replay")
+    note="operand pools are small; expression depth <= 3; families enumerated exhaustively", technique="TLA+ reference grammar as generator (TLC), behaviours replayed into the real parser; TLC model check of the composed front-end machine specs (GramRefine.tla: C04_Model incl. the validation pass)", engine="tlc+replay")
 CHECKS["C05"] = dict(level="model_checking", design="5/C05, 4.6", text=_gram + "C05 verdict: the typed accessors applied to the real tree reproduce the abstract tree the case was printed from "
     "(all 19x19x2 operator pairs under minimal/redundant parentheses in 4 contexts, unary/postfix interactions, every statement's roles; thorough: all 19^3 triples in 3 shapes).",
-    note="the accessor layer is the observation; parentheses transparent", technique="TLA+ reference grammar as generator + typed-AST skeleton comparison", engine="tlc+replay")
+    note="the accessor layer is the observation; parentheses transparent; design level: GramRefine.tla checks C05e_Model - the composed front-end machine specs plus a model of the typed accessors (AstProj.tla) map every reference expression case to its abstract tree", technique="TLA+ reference grammar as generator + typed-AST skeleton comparison; TLC model check of the composed machine specs against the reference grammar (expression families)", engine="tlc+replay")
 CHECKS["C16"] = dict(level="model_checking", design="5/C16, 4.6", text=_gram + "C16 verdict: for every ordered pair (thorough: triple) of 48 pool statements in 10 block contexts, if each parses cleanly alone "
     "the concatenation parses cleanly and its statement list is the concatenation of the individual lists.",
     note="cases whose premise fails are skipped and counted", technique="TLA+ reference grammar as generator + compositionality comparison on the real parser", engine="tlc+replay")
